@@ -9,6 +9,7 @@ import Mathlib.Tactic.Ring
 import Mathlib.Tactic.FieldSimp
 import Mathlib.Tactic.Linarith
 import Mathlib.Algebra.BigOperators.Group.List.Basic
+import Mathlib.Algebra.BigOperators.Ring.List
 import Mathlib.Algebra.Order.Field.Basic
 
 namespace Model
@@ -654,6 +655,63 @@ theorem curvatureMatrix_spec (T : List (List (Cx α))) (nVis nCols : Nat) (noise
   simp only [gram_spec]
 
 end normal
+
+/-! ### the transformer's grid: unmasked pixel centres in radians -/
+section grid
+variable {α : Type} [Field α]
+
+theorem gridSlimViaMask_eq (m : Mask) (sy sx oy ox : α) :
+    gridSlimViaMask m sy sx oy ox
+      = (Impl.nativeForSlim m).map fun p =>
+          ((-((p.1 : α) - (centralScaled m.h m.w sy sx oy ox).1)) * sy,
+           ((p.2 : α) - (centralScaled m.h m.w sy sx oy ox).2) * sx) := by
+  unfold gridSlimViaMask
+  rw [forYX_eq_foldl, nativeForSlim_eq]
+  have := foldl_append_if (pixels m.h m.w) (fun p => !m.get p.1 p.2)
+    (fun p => ((-((p.1 : α) - (centralScaled m.h m.w sy sx oy ox).1)) * sy,
+               ((p.2 : α) - (centralScaled m.h m.w sy sx oy ox).2) * sx)) []
+  simpa [Spec.unmaskedPixels] using this
+
+/-- pixel `(y, x)` of an `H×W` frame has its centre at
+    `(o_y + ((H-1)/2 - y)·s_y,  o_x + (x - (W-1)/2)·s_x)` -/
+theorem centre_formula (h w : Nat) (sy sx oy ox : α) (hsy : sy ≠ 0) (hsx : sx ≠ 0) (y x : Nat) :
+    ((-((y : α) - (centralScaled h w sy sx oy ox).1)) * sy,
+      ((x : α) - (centralScaled h w sy sx oy ox).2) * sx)
+      = (oy + ((((h - 1 : Nat) : α)) / 2 - y) * sy, ox + ((x : α) - (((w - 1 : Nat) : α)) / 2) * sx) := by
+  unfold centralScaled
+  simp only
+  congr 1
+  · field_simp; ring
+  · field_simp; ring
+
+theorem transformerGrid_eq (pi : α) (m : Mask) (sy sx oy ox : α) (hsy : sy ≠ 0) (hsx : sx ≠ 0) :
+    transformerGrid pi m sy sx oy ox
+      = (Impl.nativeForSlim m).map fun p =>
+          ((oy + ((((m.h - 1 : Nat) : α)) / 2 - p.1) * sy) * pi / ((648000 : Nat) : α),
+           (ox + ((p.2 : α) - (((m.w - 1 : Nat) : α)) / 2) * sx) * pi / ((648000 : Nat) : α)) := by
+  unfold transformerGrid inRadians
+  rw [gridSlimViaMask_eq, List.map_map]
+  apply List.map_congr_left
+  intro p _
+  simp only [Function.comp]
+  have := centre_formula m.h m.w sy sx oy ox hsy hsx p.1 p.2
+  rw [Prod.ext_iff] at this
+  simp only at this
+  rw [this.1, this.2]
+
+end grid
+
+/-! ### the pre-repair sparsity test `value > 0` -/
+section positive
+variable {α : Type} [Field α] [LinearOrder α]
+
+theorem keepPositive_spec_of_nonneg (v : α) (hv : 0 ≤ v) : keepPositive v = false → v = 0 := by
+  unfold keepPositive
+  intro h
+  have : ¬ (0 : α) < v := by simpa using h
+  exact le_antisymm (not_lt.mp this) hv
+
+end positive
 
 end DFTProofs
 end Model
